@@ -184,7 +184,7 @@ impl RtoCalculator {
         final(self).cfg_rc() == old(self).cfg_rc(),
         old(self).rc == 0 ==> r is None && *final(self) == *old(self),
         old(self).rc > 0 ==> r is Some && final(self).j() == old(self).j() + 1 && final(self).rc == old(self).rc - 1
-            && r->Some_0.ns@ == ivl(old(self).rtt.ns@, old(self).last_rm as int, old(self).cfg_rc(), old(self).j()),
+            && r->Some_0.ns@ == ivl(old(self).rtt.ns@ as int, old(self).last_rm as int, old(self).cfg_rc(), old(self).j()),
 //@head
     proof {
         lemma_lg_pow2(self.j());
@@ -341,14 +341,14 @@ impl RttCalcuator {
     ensures
         final(self).granularity == old(self).granularity, final(self).configured_rto == old(self).configured_rto,
         old(self).srtt.ns@ == 0 ==> {
-            let f = rfc6298_first(r.ns@, old(self).granularity.ns@);
+            let f = rfc6298_first(r.ns@ as int, old(self).granularity.ns@ as int);
             final(self).srtt.ns@ == f.0 && final(self).rttvar.ns@ == f.1 && final(self).rto.ns@ == f.2
         },
         old(self).srtt.ns@ != 0 ==> {
             let var = dur_mul_f32(old(self).rttvar, vxs_f32_1_0_sub_BETA()).ns@
                 + dur_mul_f32(dur(if old(self).srtt.ns@ >= r.ns@ { old(self).srtt.ns@ - r.ns@ } else { r.ns@ - old(self).srtt.ns@ }), vxs_f32_BETA()).ns@;
             let srtt = dur_mul_f32(old(self).srtt, vxs_f32_1_0_sub_ALPHA()).ns@ + dur_mul_f32(r, vxs_f32_ALPHA()).ns@;
-            let kvar = dur_mul_f32(dur(var), vxs_f32_K_as_f32());
+            let kvar = dur_mul_f32(dur(var as int), vxs_f32_K_as_f32());
             &&& final(self).rttvar.ns@ == var
             &&& final(self).srtt.ns@ == srtt
             &&& final(self).rto.ns@ == srtt + (if kvar.ns@ >= old(self).granularity.ns@ { kvar.ns@ } else { old(self).granularity.ns@ })
